@@ -127,7 +127,7 @@ def check_definition(case):
             # (plus round-off measured against the largest value the coefficient could take for this
             # signal: sum|w| * (max|x| * sum|h|)^p -- a column of 1e-19 is numerically zero, not data)
             natural = float(np.sum(np.abs(window))) * (float(np.max(np.abs(xf))) * float(np.sum(np.abs(g)))) ** p if len(xf) else 0.0
-            tol_lin = 1e-7 * colmax + 1e-10 * gmax + 1e-13 * natural + 1e-300
+            tol_lin = 1e-9 * colmax + 1e-11 * gmax + 1e-13 * natural + 1e-300
             if spec["use_log"]:
                 ref_out = np.log(ref)
                 # the linear value is rounded to the output dtype before its log is taken and rounded again
